@@ -350,7 +350,7 @@ func (c *Ctx) MustPassAny(f *ir.Func, calls []ssa.CallInstruction) bool {
 		if k == ir.SuccessExit || k == ir.MaybeExit {
 			return false
 		}
-		for _, s := range b.Succs {
+		for _, s := range ir.FeasibleSuccs(b) {
 			if !seen[s] && !blocks[s] {
 				seen[s] = true
 				work = append(work, s)
@@ -770,6 +770,43 @@ func (c *Ctx) LoopNoEarlyExit(fnSpec, desc string) {
 	c.add("O", fnSpec, "loopnoexit", desc, report.OK, fmt.Sprintf("%d loop(s)", n), c.fnPos(f))
 }
 
+// LoopOnlyFailExits: every way out of a loop body of fn other than the header's exit edge ends in failure
+// (a successful run visits every element of the iterated collection).
+func (c *Ctx) LoopOnlyFailExits(fnSpec, desc string) {
+	f := c.Fn(fnSpec)
+	if f == nil {
+		return
+	}
+	n := 0
+	for _, h := range f.Fn.Blocks {
+		body, _ := NaturalLoop(h)
+		if body == nil {
+			continue
+		}
+		n++
+		for _, b := range f.Fn.Blocks {
+			if !body[b] || b == h {
+				continue
+			}
+			for _, s := range b.Succs {
+				if !body[s] && f.CanSucceed(s) {
+					c.add("O", fnSpec, "looponlyfail", desc, report.Violated, "the loop body can leave the loop early and still succeed", c.blockPos(b, f))
+					return
+				}
+			}
+			if len(b.Succs) == 0 && f.CanSucceed(b) {
+				c.add("O", fnSpec, "looponlyfail", desc, report.Violated, "the loop body returns successfully", c.blockPos(b, f))
+				return
+			}
+		}
+	}
+	if n == 0 {
+		c.add("O", fnSpec, "looponlyfail", desc, report.Violated, "no loop found", c.fnPos(f))
+		return
+	}
+	c.add("O", fnSpec, "looponlyfail", desc, report.OK, fmt.Sprintf("%d loop(s)", n), c.fnPos(f))
+}
+
 func (c *Ctx) blockPos(b *ssa.BasicBlock, f *ir.Func) string {
 	for _, ins := range b.Instrs {
 		if ins.Pos().IsValid() {
@@ -1048,4 +1085,296 @@ func (c *Ctx) StoreFieldN(fnSpec, field string, patterns []string, desc string) 
 		}
 	}
 	c.add("A", fnSpec, r, desc, report.OK, fmt.Sprintf("%d stores", len(sts)), c.posOf(sts[0]))
+}
+
+// MapFieldFilled: the map stored to the given struct field by fn is filled by a map update whose key and value
+// match the patterns, executed unconditionally on every iteration of a loop (one entry per element ranged over).
+func (c *Ctx) MapFieldFilled(fnSpec, field, keyPat, valPat, desc string) {
+	keyPat, valPat = c.X(keyPat), c.X(valPat)
+	f := c.Fn(fnSpec)
+	if f == nil {
+		return
+	}
+	r := "mapfill/" + field
+	sts := FieldStores(f, field)
+	if len(sts) != 1 {
+		c.add("A", fnSpec, r, desc, report.Violated, fmt.Sprintf("%d stores to field %s, want exactly one", len(sts), field), c.fnPos(f))
+		return
+	}
+	m := sts[0].Val
+	if ch, ok := m.(*ssa.ChangeType); ok {
+		m = ch.X
+	}
+	var ups []*ssa.MapUpdate
+	for _, b := range f.Fn.Blocks {
+		for _, ins := range b.Instrs {
+			if mu, ok := ins.(*ssa.MapUpdate); ok && mu.Map == m {
+				ups = append(ups, mu)
+			}
+		}
+	}
+	if len(ups) == 0 {
+		c.add("A", fnSpec, r, desc, report.Violated, "the map stored to "+field+" is never filled", c.posOf(sts[0]))
+		return
+	}
+	okAny := false
+	var seen []string
+	for _, mu := range ups {
+		k, v := f.Term(mu.Key), f.Term(mu.Value)
+		seen = append(seen, "["+k.String()+"] = "+v.String())
+		if ir.MatchAny(keyPat, k) && ir.MatchAny(valPat, v) && everyIteration(mu.Block()) {
+			okAny = true
+		}
+	}
+	if !okAny {
+		c.add("A", fnSpec, r, desc, report.Violated, "no per-iteration update with key "+keyPat+" and value "+valPat+"; seen: "+short(strings.Join(seen, " ; ")), c.posOf(ups[0]))
+		return
+	}
+	c.add("A", fnSpec, r, desc, report.OK, short(strings.Join(seen, " ; ")), c.posOf(ups[0]))
+}
+
+// ForEach: some call to callee in fn is executed once for every element of the collection matching collPat: the
+// call sits in a loop whose header ranges over the collection, it dominates every back edge of that loop (no
+// iteration skips it), the loop is left early only by failing, and (unless conditional) every successful run
+// passes the loop header.
+func (c *Ctx) ForEach(fnSpec, callee, collPat, desc string, conditional bool) {
+	collPat = c.X(collPat)
+	f := c.Fn(fnSpec)
+	if f == nil {
+		return
+	}
+	role := "foreach/" + callee + "/" + collPat
+	calls := c.sites(f, c.X(callee))
+	if len(calls) == 0 {
+		c.add("O", fnSpec, role, desc, report.Violated, "no call to "+callee, c.fnPos(f))
+		return
+	}
+	why := ""
+	for _, call := range calls {
+		b := call.Block()
+		var body map[*ssa.BasicBlock]bool
+		var latch []*ssa.BasicBlock
+		var head *ssa.BasicBlock
+		for _, h := range f.Fn.Blocks {
+			bd, l := NaturalLoop(h)
+			if bd == nil || !bd[b] {
+				continue
+			}
+			if body == nil || len(bd) < len(body) {
+				body, latch, head = bd, l, h
+			}
+		}
+		if body == nil {
+			why = "the call is not inside a loop"
+			continue
+		}
+		iff, ok := head.Instrs[len(head.Instrs)-1].(*ssa.If)
+		if !ok {
+			why = "loop header has no range condition"
+			continue
+		}
+		ct := f.Term(iff.Cond)
+		if !ir.MatchAny("lt(add(phi(-1,add(#self,1)),1),len("+collPat+")) | next(range("+collPat+"))#0", ct) {
+			why = "the loop ranges over " + short(ct.String()) + ", want " + collPat
+			continue
+		}
+		dom := true
+		for _, l := range latch {
+			if !b.Dominates(l) {
+				dom = false
+			}
+		}
+		if !dom {
+			why = "an iteration can skip the call"
+			continue
+		}
+		early := false
+		for _, x := range f.Fn.Blocks {
+			if !body[x] || x == head {
+				continue
+			}
+			for _, s := range x.Succs {
+				if !body[s] && f.CanSucceed(s) {
+					early = true
+				}
+			}
+			if len(x.Succs) == 0 && f.CanSucceed(x) {
+				early = true
+			}
+		}
+		if early {
+			why = "the loop can be left early on a successful run"
+			continue
+		}
+		if !conditional && !f.MustPassOnSuccess(head) {
+			why = "a successful run can avoid the loop"
+			continue
+		}
+		c.add("O", fnSpec, role, desc, report.OK, "loop over "+short(ct.String()), c.posOf(call))
+		return
+	}
+	c.add("O", fnSpec, role, desc, report.Violated, why, c.posOf(calls[0]))
+}
+
+// FreshRead: the value passed as argument idx of sink in fn is derived from a call to reader, and no call to one of
+// the mutators ('|'-separated) can execute between that read and the sink (the sink never sees a copy that a
+// mutator has made stale).
+func (c *Ctx) FreshRead(fnSpec, reader, mutators, sink string, idx int, desc string) {
+	role := "fresh/" + reader + ">" + sink
+	f := c.Fn(fnSpec)
+	if f == nil {
+		return
+	}
+	sinks := c.sites(f, c.X(sink))
+	if len(sinks) == 0 {
+		c.add("O", fnSpec, role, desc, report.Violated, "no call to "+sink, c.fnPos(f))
+		return
+	}
+	muts := c.sites(f, c.X(mutators))
+	readers := map[ssa.Value]ssa.CallInstruction{}
+	for _, r := range c.sites(f, c.X(reader)) {
+		if v := r.Value(); v != nil {
+			readers[v] = r
+		}
+	}
+	n := 0
+	for _, s := range sinks {
+		var args []ssa.Value
+		if cc := s.Common(); cc.IsInvoke() {
+			args = append([]ssa.Value{cc.Value}, cc.Args...)
+		} else {
+			args = cc.Args
+		}
+		if idx >= len(args) {
+			c.add("O", fnSpec, role, desc, report.Violated, "sink has no such argument", c.posOf(s))
+			return
+		}
+		// walk back from the argument to the reads it derives from
+		var srcs []ssa.CallInstruction
+		seen := map[ssa.Value]bool{}
+		opaque := ""
+		var walk func(v ssa.Value)
+		walk = func(v ssa.Value) {
+			if seen[v] {
+				return
+			}
+			seen[v] = true
+			if r, ok := readers[v]; ok {
+				srcs = append(srcs, r)
+				return
+			}
+			switch x := v.(type) {
+			case *ssa.Extract:
+				walk(x.Tuple)
+			case *ssa.UnOp:
+				walk(x.X)
+			case *ssa.Phi:
+				for _, e := range x.Edges {
+					walk(e)
+				}
+			case *ssa.ChangeType:
+				walk(x.X)
+			case *ssa.MakeInterface:
+				walk(x.X)
+			case *ssa.Alloc:
+				for _, ref := range *x.Referrers() {
+					if st, ok := ref.(*ssa.Store); ok && st.Addr == x {
+						walk(st.Val)
+					}
+				}
+			default:
+				opaque = f.Term(v).String()
+			}
+		}
+		walk(args[idx])
+		if len(srcs) == 0 || opaque != "" {
+			c.add("O", fnSpec, role, desc, report.Violated, "argument is not (only) the result of "+reader+": "+short(f.Term(args[idx]).String()), c.posOf(s))
+			return
+		}
+		for _, r := range srcs {
+			for _, m := range muts {
+				// m reachable from r and s reachable from m?
+				if reaches(r, m) && reaches(m, s) {
+					c.add("O", fnSpec, role, desc, report.Violated, "the value read by "+f.CalleeName(r)+" can be made stale by "+f.CalleeName(m)+" before it reaches "+f.CalleeName(s), c.posOf(m))
+					return
+				}
+			}
+			n++
+		}
+	}
+	c.add("O", fnSpec, role, desc, report.OK, fmt.Sprintf("%d read(s), %d mutator call(s), none in between", n, len(muts)), c.posOf(sinks[0]))
+}
+
+// reaches: instruction b can execute after instruction a (same block later, or through the CFG).
+func reaches(a, b ssa.Instruction) bool {
+	if a.Block() == b.Block() {
+		for _, ins := range a.Block().Instrs {
+			if ins == a {
+				return true && a != b
+			}
+			if ins == b {
+				break
+			}
+		}
+	}
+	seen := map[*ssa.BasicBlock]bool{}
+	work := append([]*ssa.BasicBlock{}, a.Block().Succs...)
+	for len(work) > 0 {
+		x := work[len(work)-1]
+		work = work[:len(work)-1]
+		if seen[x] {
+			continue
+		}
+		seen[x] = true
+		if x == b.Block() {
+			return true
+		}
+		work = append(work, x.Succs...)
+	}
+	return false
+}
+
+// MapKeys: every map update and every map lookup in fn whose map is a local (make:map or a value looked up from
+// one) uses a key matching one of the allowed patterns; at least min such accesses exist.
+func (c *Ctx) MapKeys(fnSpec, allowed string, min int, desc string) {
+	allowed = c.X(allowed)
+	f := c.Fn(fnSpec)
+	if f == nil {
+		return
+	}
+	n := 0
+	var seen []string
+	for _, b := range f.Fn.Blocks {
+		for _, ins := range b.Instrs {
+			var key ssa.Value
+			var m ssa.Value
+			switch x := ins.(type) {
+			case *ssa.MapUpdate:
+				key, m = x.Key, x.Map
+			case *ssa.Lookup:
+				if _, ok := x.X.Type().Underlying().(*types.Map); !ok {
+					continue
+				}
+				key, m = x.Index, x.X
+			default:
+				continue
+			}
+			mt := f.Term(m).String()
+			if !strings.Contains(mt, "make:map") {
+				continue
+			}
+			n++
+			kt := f.Term(key)
+			if !ir.MatchAny(allowed, kt) {
+				c.add("A", fnSpec, "mapkeys", desc, report.Violated, "map key "+short(kt.String())+" is not one of "+allowed, c.posOf(ins))
+				return
+			}
+			seen = append(seen, kt.String())
+		}
+	}
+	if n < min {
+		c.add("A", fnSpec, "mapkeys", desc, report.Violated, fmt.Sprintf("%d keyed accesses to local maps, expected at least %d", n, min), c.fnPos(f))
+		return
+	}
+	c.add("A", fnSpec, "mapkeys", desc, report.OK, fmt.Sprintf("%d accesses", n), c.fnPos(f))
 }
